@@ -420,6 +420,18 @@ class WsWorld:
                 rcv.on_delivered(piece)
             self.fw.deliver_burst(self, rcv.t, pieces)
             return
+        others = [(p2, r2) for p2, r2 in self.pipes if r2 is not rcv and p2.buf and not p2.ended and not p2.stalled
+                  and hasattr(r2, "t") and r2.t.can_read()]
+        if others and self.run.ch.flag("two-sockets-readable-in-one-iteration", 0.12):
+            # one select() round reports two sockets readable: both are read before anything scheduled 'for later' runs
+            pipe2, rcv2 = others[self.run.ch.choose(len(others), "other-socket")]
+            chunk2 = pipe2.take(self.pick_chunk(len(pipe2.buf)))
+            self.run.probe("two-connections-read-in-one-iteration")
+            self.run.log("deliver-multi", pipe.name, len(chunk), short(chunk), pipe2.name, len(chunk2), short(chunk2))
+            rcv.on_delivered(chunk)
+            rcv2.on_delivered(chunk2)
+            self.fw.deliver_multi(self, [(rcv.t, chunk), (rcv2.t, chunk2)])
+            return
         self.deliver_chunk(pipe, rcv, chunk)
 
     def deliver_chunk(self, pipe, rcv, chunk):
